@@ -65,7 +65,7 @@ def tofloat(v):
     return float(v) * 1.1
 
 
-def make_driver(cfg, T, asize, options, mode):
+def make_driver(cfg, T, asize, options, mode, fork_ok=True):
     conv = tofloat if mode == 'float' else None
 
     def driver(run):
@@ -82,7 +82,7 @@ def make_driver(cfg, T, asize, options, mode):
         import copy as _copy
         fork = None
         for t in range(T + 1):
-            if t == T - 1 and mode == 'exact':
+            if t == T - 1 and mode == 'exact' and fork_ok:
                 fork = choice.safe_copy(ex)        # a checkpoint of the explainer, taken before the original moves on
             if t == T:
                 if fork is None:
@@ -149,7 +149,8 @@ def run_task(task):
     def on_leaf(run, seen):
         values.update(seen)
         n[0] += T
-    drv = make_driver(cfg, T, asize, options, mode)
+    # (a full enumeration over 4 calls is not continued on a copy: the extra call would multiply the tree by ~30)
+    drv = make_driver(cfg, T, asize, options, mode, fork_ok=not (bound is None and T >= 4))
     st = choice.explore(drv, on_leaf=on_leaf, bound=bound)
     dl = False
     if bound is not None and not st.violations:
@@ -163,7 +164,8 @@ def run_task(task):
 
 def main(rep):
     tasks = plan(rep.tier)
-    results = choice.pmap(run_task, tasks, chunksize=4)
+    tasks.sort(key=lambda t: -(t[1] * (3 if t[2] is None else 1) * t[4]))      # heavy tasks first (load balance)
+    results = choice.pmap(run_task, tasks, chunksize=2)
     states = set()
     for r in results:
         cfg, T, bound, options, asize, mode = r['task']
@@ -205,7 +207,7 @@ def replay(data):
         cfg['alpha'] = F(cfg['alpha'])
     out = []
     for _ in range(2):
-        run, res, viol = choice.execute(make_driver(cfg, T, asize, options, mode), tuple(r['prefix']),
+        run, res, viol = choice.execute(make_driver(cfg, T, asize, options, mode, fork_ok=not (bound is None and T >= 4)), tuple(r['prefix']),
                                         default_last=bool(r.get('default_last')))
         out.append((viol.key, viol.what) if viol else None)
     if out[0] != out[1]:
